@@ -5,11 +5,13 @@ open Qmc Qmc.Proto
 /-
 C15 driver.
   convert <edges> <Γ> <h> <nvars> <cutoff> <state> <slots>
-      → `P` | `ok <bonds> <vars> <offset generic> <offset ising> <cutoff> <state> <slots> <flags> <non_const_diags>`
+      → `P` | `ok <bonds> <vars> <offset generic> <offset ising> <cutoff> <state> <slots> <flags> <non_const_diags> <ising table> <ops ok>`
         bonds = `const:constdiag:at-table` joined by `!` (table: ins major, outs minor), vars joined by `.`/`!`,
         flags = has_cluster_edges, breaks_ising_symmetry, should_do_cluster_update, loops, heatbath
   lockstep[-h|-opts] <edges> <Γ> <h> <nvars> <cutoff> <β> <seed> <kpre> <kpost> <rvb> <hb> <observed>
       → `<observation allowed by the trajectory theorem 0|1> <cluster gate> <energy difference>`
+  diagstep <edges> <Γ> <h> <nvars> <cutoff> <β> <seed> <kpre> <kpost> <observed>
+      → `<observation allowed 0|1>` (diagonal sweeps only: must be `same` for every h)
 edges = `a,b:J!a,b:J…`
 -/
 
@@ -47,9 +49,26 @@ def step (toks : List String) : String :=
       let vars := joinOr "!" (q.bonds.map fun i => String.intercalate "." (i.vars.map toString))
       let flags := String.join ([q.hasClusterEdges, q.breaksIsingSymmetry, q.shouldDoClusterUpdate,
         q.doLoopUpdates, q.doHeatbath].map showBool)
-      s!"ok {bonds} {vars} {showRat q.offset} {showRat g.model.offset} {q.cutoff} {showBits q.state} {showSlots q.slots} {flags} {showNats q.nonConstDiags}"
+      -- the Ising sampler's own Hamiltonian (`QmcIsingGraph::hamiltonian`) on every bond and pattern
+      let ih := isingHam g.model
+      let itable := joinOr "!" ((List.range ih.nbonds).map fun b =>
+        let pats := patterns (ih.vars b).length
+        String.intercalate "," (pats.flatMap fun ins => pats.map fun outs => showRat (ih.w b ins outs)))
+      -- every operator the Ising sampler stored uses the variables / constant flag / a positive weight of `isingHam`
+      let opsOk := g.slots.all fun o => match o with
+        | none => true
+        | some op => op.bond < ih.nbonds && op.vars == ih.vars op.bond && op.const == ih.const op.bond
+            && decide (0 < ih.w op.bond op.ins op.outs)
+      s!"ok {bonds} {vars} {showRat q.offset} {showRat g.model.offset} {q.cutoff} {showBits q.state} {showSlots q.slots} {flags} {showNats q.nonConstDiags} {itable} {showBool opsOk}"
     | .err => "E"
     | .panic => "P"
+  | ["diagstep", edges, gam, h, nv, cutoff, _beta, _seed, _kpre, _kpost, observed] =>
+    -- `convert_diag_sweeps_agree`: for every h the two diagonal sweeps are the same function call
+    let g : IsingSampler :=
+      { model := mkModel edges gam h nv, state := [], cutoff := parseNat cutoff, slots := [] }
+    match intoQmc g with
+    | .ok _ => showBool (observed == "same")
+    | _ => "0"
   | [kind, edges, gam, h, nv, cutoff, _beta, _seed, _kpre, _kpost, rvb, hb, observed] =>
     if !kind.startsWith "lockstep" then "bad-op" else
     let g : IsingSampler :=
